@@ -9,7 +9,8 @@ EVIDENCE = dict(
          "type under every unit in strict and lenient mode (invariants: strict fixed ranges never leave their domain, "
          "rejected assignments change nothing, stored encoding bijective over every value). The same probes are "
          "executed on real module instances by attribute assignment and by constructor keyword, plus a fresh-default "
-         "event per controller, and Trace_RVCtl judges outcome and read-back. An event is non-trivial when the value "
+         "event per controller, and Trace_RVCtl judges outcome and read-back. Every zero-based ranged controller is also "
+         "assigned through a MetaModule user-defined controller mapped onto it, under its own name and under its label alias. An event is non-trivial when the value "
          "differs from the default or the assignment is refused.",
     explanation="complete over 43 types x 502 controllers x {min-1,min,min+1,mid,max-1,max,max+1 | every enum member by "
                 "value and by name, invalid value, invalid name | booleans} x {strict, lenient} x {attribute, keyword}")
@@ -26,7 +27,7 @@ def mc(ctx, path, invs=("StrictInDomain", "EnumInDomain")):
 def run(ctx):
     path, spec = specdata.write(ctx)
     mc(ctx, path)
-    events = ctl.set_events(spec) + ctl.history_probe_events(spec)
+    events = ctl.set_events(spec) + ctl.history_probe_events(spec) + ctl.meta_events(spec)
     for e in events:
         ctx.count_case(json.dumps(e, sort_keys=True), nontrivial=e["op"] == "set" and (e["outcome"] != "ok" or e["got"] != e["old"]))
     # one trace per module type
